@@ -150,6 +150,9 @@ async def set_port_attrs(port: core_ports.BasePort, attrs: GenericJSONDict, igno
         await asyncio.wait([asyncio.create_task(set_attr(n, v)) for n, v in attrs.items()])
 
     if errors_by_name:
+        # The other attributes have been applied; persist them, so that they survive a restart
+        await port.save()
+
         name, error = next(iter(errors_by_name.items()))
 
         if isinstance(error, core_api.APIError):
